@@ -65,6 +65,9 @@ try:
     confirmed = res["suite_passes_with_change"] and res["demo_fails_with_change"] and res["demo_passes_without_change"]
     res["confirmed"] = confirmed
     res["checks"] = {}
+    before = set()
+    for root, _, files in os.walk("/verif/replays"):
+        before.update(os.path.join(root, f) for f in files)
     if mode != "none":
         tiers = ["quick", "thorough"] if mode == "both" else [mode]
         for tier in tiers:
@@ -78,7 +81,11 @@ try:
             if rc == 1:
                 break
     # evidence files were rewritten by the mutated run: restore committed ones
-    sh("git checkout -- evidence replays 2>/dev/null; git clean -fdq replays", cwd="/verif")
+    sh("git checkout -- evidence 2>/dev/null", cwd="/verif")
+    for root, _, files in os.walk("/verif/replays"):
+        for f in files:
+            if os.path.join(root, f) not in before:
+                os.remove(os.path.join(root, f))
     if confirmed:
         dest = "/verif/seeded/%s-%s" % (prop, name)
         os.makedirs(dest, exist_ok=True)
